@@ -8,7 +8,9 @@ normalise at construction is part of the original), twice:
 The first difference is returned under "property"; the final object's dump under "val".
 
 Options of an input (all optional): save_dir / load_dir, dir_as ("str" | "path"), n, fresh (load in a process that
-never saw the saved objects), ints (integral numbers are handed to the constructors as Python ints),
+never saw the saved objects), ints (integral numbers are handed to the constructors as Python ints), via (another
+construction path of the object, see `build_via`), io (spelling of the calls: format / type / Path / new directory /
+positional arguments / a file that already exists / a relative file name),
 fill_unknown (declared fields the harness does not know get a non-default value before saving).
 """
 import datetime
@@ -148,6 +150,65 @@ def build(cj, ints=False):
         aoef._f = old_f
 
 
+# ----------------------------------------------------------------------------- other construction paths
+def _tupled(x):
+    if isinstance(x, dict):
+        return {k: _tupled(v) for k, v in x.items()}
+    if isinstance(x, list):
+        return tuple(_tupled(v) for v in x)
+    return x
+
+
+def _assign_numpy(obj):
+    """numbers re-assigned as numpy scalars (assignment is not validated: the objects then *hold* numpy values)"""
+    import numpy as np
+    for o in walk_models(obj):
+        cls = type(o)
+        if cls.__name__ == "Term" or getattr(cls, "model_config", {}).get("frozen"):
+            continue
+        for f, info in cls.model_fields.items():
+            v = getattr(o, f, None)
+            if isinstance(v, bool):
+                continue
+            if type(v) is float:
+                setattr(o, f, np.float64(v))
+            elif type(v) is int and abs(v) < 2 ** 62:
+                setattr(o, f, np.int64(v))
+    return obj
+
+
+VIAS = ("build", "validate", "validate_json", "copy", "deepcopy", "shallow", "tuples", "assign_np", "ints")
+
+
+def build_via(cj, via="build"):
+    """the collection `cj` as a real object, constructed in one of the legitimate ways a caller may construct it:
+    by the constructors (objects with one uuid shared by reference), from a plain dict / from JSON text
+    (`model_validate`: equal content as *distinct* objects), with tuples where lists are declared, as a deep / shallow
+    `model_copy`, `copy.deepcopy`, with integral numbers as `int`, with numbers re-assigned as numpy scalars"""
+    import copy as _copy
+    if via == "ints":
+        return build(cj, ints=True)
+    obj = aoef.build(cj)
+    if via in (None, "build"):
+        return obj
+    cls = type(obj)
+    if via == "validate":
+        return cls.model_validate(obj.model_dump())
+    if via == "tuples":
+        return cls.model_validate(_tupled(obj.model_dump()))
+    if via == "validate_json":
+        return cls.model_validate_json(obj.model_dump_json())
+    if via == "copy":
+        return obj.model_copy(deep=True)
+    if via == "shallow":
+        return obj.model_copy()
+    if via == "deepcopy":
+        return _copy.deepcopy(obj)
+    if via == "assign_np":
+        return _assign_numpy(obj)
+    raise ValueError(via)
+
+
 # ----------------------------------------------------------------------------- fresh loader (own worker)
 class FreshLoader(aoef_impl.FreshLoader):
     def start(self):
@@ -183,7 +244,7 @@ def roundtrip(inp):
     save_dir, load_dir = inp.get("save_dir"), inp.get("load_dir")
     n, how, fresh = inp.get("n", 1), inp.get("dir_as", "str"), inp.get("fresh", False)
     try:
-        obj = build(cj, ints=inp.get("ints", False))
+        obj = build(cj, ints=True) if inp.get("ints") else build_via(cj, inp.get("via", "build"))
     except Exception as e:  # noqa: BLE001  (the input is not constructible: generator fault, not a verdict)
         return {"unbuildable": repr(e)[:300]}
     out = {}
@@ -210,20 +271,42 @@ def roundtrip(inp):
     if opts.get("load_type"):
         lkw["type"] = cj["type"]
     as_path = (lambda p: Path(p)) if opts.get("path_as") == "path" else (lambda p: p)
+    cwd = None
+    full = path
     try:
+        # the target before the first save: absent, or a file somebody else left there (`save` replaces it).
+        # Between the cycles nothing is removed: the next save goes to the file the object was loaded from.
+        if os.path.exists(path):
+            os.remove(path)
+        if opts.get("preexisting"):
+            from . import c01_fs
+            os.makedirs(os.path.dirname(path), exist_ok=True)
+            with open(path, "w") as f:
+                f.write(c01_fs.TEXTS[opts["preexisting"]])
+        if opts.get("relname"):                  # a file name relative to the working directory
+            cwd = os.getcwd()
+            os.makedirs(os.path.dirname(full), exist_ok=True)
+            os.chdir(os.path.dirname(full))
+            path = opts["relname"] + os.path.basename(full)      # "doc.json", "./doc.json"
         for i in range(n):
-            if os.path.exists(path):
+            if opts.get("remove_between") and os.path.exists(path):
                 os.remove(path)
-            io.save(obj, as_path(path), audio_dir=aoef_impl.adir(save_dir, how), **skw)
+            if opts.get("positional"):       # the documented order: save(obj, path, audio_dir, format)
+                io.save(obj, as_path(path), aoef_impl.adir(save_dir, how), skw.get("format", "aoef"))
+            else:
+                io.save(obj, as_path(path), audio_dir=aoef_impl.adir(save_dir, how), **skw)
             if fresh and not lkw:
-                rep = FRESH.load(path, load_dir, how)
+                rep = FRESH.load(full, load_dir, how)
                 if "val" not in rep:
                     return {**out, **rep}
                 cur_d, cur_g = rep["val"], rep["gen"]
                 if i + 1 < n:
                     obj = aoef.build(cur_d)
             else:
-                obj = io.load(as_path(path), audio_dir=aoef_impl.adir(load_dir, how), **lkw)
+                if opts.get("positional"):   # load(path, audio_dir, format, type)
+                    obj = io.load(as_path(path), aoef_impl.adir(load_dir, how), lkw.get("format", "aoef"), lkw.get("type"))
+                else:
+                    obj = io.load(as_path(path), audio_dir=aoef_impl.adir(load_dir, how), **lkw)
                 cur_d, cur_g = aoef.dump(obj), (generic(obj) if judge else None)
             if judge and "property" not in out:
                 msg = None if orig_g == cur_g else gdiff(orig_g, cur_g)
@@ -239,6 +322,8 @@ def roundtrip(inp):
     except Exception as e:  # noqa: BLE001
         return {**out, **canon_exc(e)}
     finally:
-        aoef_impl.cleanup(path)
+        if cwd is not None:
+            os.chdir(cwd)
+        aoef_impl.cleanup(full)
         if nest is not None:
             shutil.rmtree(nest, ignore_errors=True)
